@@ -192,6 +192,9 @@ def gen_client_cases(ctx, thorough):
     cases.append('states rh 0 0 close')
     cases.append('states rh 0 0 refuse')
     # notification SEQUENCES (repeats included): a serial port that cannot be opened, a refused TCP port
+    # a setting rejected for a full queue, then repeated: Ok means the command was queued
+    cases.append('gate rh 0 0 enable')
+    cases.append('gate rh 0 0 disable')
     cases.append('notify rh 0 5 rtu')
     cases.append('notify rh 0 7 tcp')
     # ONE list object passed to several write-multiple calls (periodic write of a prepared block; a value added in between)
@@ -500,6 +503,15 @@ def check_client(ctx, cases):
                      + (' (one value added after each call)' if add else '') + f': call #{j + 1} gave <return code>/<callback>@<request on the wire> = {g[:160]}; '
                      f'a call must not change the caller\'s list: expected {want[j][:160] if j < len(want) else "(nothing)"}', c, i, spec=';'.join(want))
             reuse_cases.append((c, op, start, n, k, add, ';'.join(got), i))
+        elif sc == 'gate':
+            classes['setting-rejected-then-repeated'] = classes.get('setting-rejected-then-repeated', 0) + 1
+            want = 'Ok/TooManyRequests/Ok/1'
+            if ffi != want:
+                g = ffi.split('/')
+                call = f'rodbus_client_channel_{extra}'
+                fail(f'setting-ok-but-not-applied.{extra}', f'queue of one, the channel task parked in a completion callback, a second request queued: {call} returned {g[1] if len(g) > 1 else "?"}; repeated after the callback '
+                     f'was released it returned {g[2] if len(g) > 2 else "?"} and the listener {"saw" if g[-1] == "1" else "NEVER saw"} {"Disabled" if extra == "disable" else "Connected"} (got {ffi}, expected {want}: '
+                     'Ok means the setting was queued, as with the Rust API)', c, i, spec=want)
         elif sc == 'notify':
             classes['notify-' + extra] = classes.get('notify-' + extra, 0) + 1
             f_seq = ffi.split('/', 1)[1]
